@@ -176,8 +176,14 @@ fn c15_u_to_i_used_widths() {
     let v = u_to_i(x, bits);
     assert!(spec_fits(v as i64, bits));
     assert!(((v as i64) & ((1i64 << bits) - 1)) == x as i64);
+    // writer direction: the field `write_twoc(w, bits)` emits for an in-range w reads back as w
+    let w: i32 = kani::any();
+    kani::assume(spec_fits(w as i64, bits));
+    let field = (w as u32) & (((1u64 << bits) - 1) as u32);
+    assert!(u_to_i(field, bits) == w);
     kani::cover!(bits == 26 && v < 0);
     kani::cover!(bits == 1 && v == -1);
+    kani::cover!(bits == 25 && w == -(1 << 24));
 }
 
 /// `subframe_header` on 2 arbitrary bytes at every bit offset: never a panic (a set wasted-bits
@@ -415,47 +421,192 @@ fn c16_metadata_block_no_panic() {
     kani::cover!(!ok && data[0] & 0x7F == 127);
 }
 
-// ---- XP (temporary experiments) ----
-fn contract_unary_code<'a, E>(input: BitInput<'a>) -> IResult<BitInput<'a>, usize, E>
-where
-    E: ParseError<BitInput<'a>>,
-{
-    let (bytes, off) = input;
-    let avail = bytes.len() * 8 - off;
-    let q: usize = kani::any();
-    if q >= avail {
-        return Err(nom::Err::Incomplete(nom::Needed::new(1)));
+// ================================================================================================
+// C15: leaf inverses, complete over their code spaces
+// ================================================================================================
+
+const UTF8_LO: [u64; 8] = [0, 0, 1 << 7, 1 << 11, 1 << 16, 1 << 21, 1 << 26, 1 << 31];
+const UTF8_HI: [u64; 8] = [0, 1 << 7, 1 << 11, 1 << 16, 1 << 21, 1 << 26, 1 << 31, 1 << 36];
+
+/// For every value whose code has L bytes: `utf8_code(encode_to_utf8like(v)) == v`, all L bytes
+/// consumed; with trailing bytes present exactly L bytes are consumed.
+fn c15_utf8_body<const L: usize>() {
+    let v: u64 = kani::any();
+    kani::assume(UTF8_LO[L] <= v && v < UTF8_HI[L]);
+    let code = encode_to_utf8like(v);
+    assert!(code.is_ok());
+    let code = code.unwrap();
+    assert!(code.len() == L);
+    let mut buf = [0u8; 8];
+    let mut i = 0;
+    while i < L {
+        buf[i] = code[i];
+        i += 1;
     }
-    let end = off + q + 1;
-    Ok(((&bytes[end / 8..], end % 8), q))
-}
-fn xp_residual_body<const BS: usize, const WARM: usize, const N: usize>(off: usize) {
-    let data: [u8; N] = kani::any();
-    let r = residual::<BitErr>(BS, WARM)((&data[..], off));
-    let mut ok = false;
-    if let Ok((_rest, res)) = r {
-        ok = true;
-        assert!(res.block_size() == BS && res.warmup_length() == WARM);
+    buf[L] = kani::any(); // whatever follows the code
+    match utf8_code::<ByteErr>(&buf[0..L]) {
+        Ok((rest, x)) => assert!(x == v && rest.len() == 0),
+        Err(_) => assert!(false),
     }
-    kani::cover!(ok);
-    kani::cover!(!ok);
+    match utf8_code::<ByteErr>(&buf[0..L + 1]) {
+        Ok((rest, x)) => assert!(x == v && rest.len() == 1),
+        Err(_) => assert!(false),
+    }
+    kani::cover!(v == UTF8_HI[L] - 1);
+    kani::cover!(v == UTF8_LO[L]);
 }
+
+//@ unit name=c15_utf8_roundtrip_len1 props=C15 tier=quick kind=complete timeout=300 funcs="parser::utf8_code; encode_to_utf8like"
+//@ unit name=c15_utf8_roundtrip_len2 props=C15 tier=quick kind=complete timeout=300 funcs="parser::utf8_code; encode_to_utf8like"
+//@ unit name=c15_utf8_roundtrip_len3 props=C15 tier=quick kind=complete timeout=300 funcs="parser::utf8_code; encode_to_utf8like"
+//@ unit name=c15_utf8_roundtrip_len4 props=C15 tier=quick kind=complete timeout=300 funcs="parser::utf8_code; encode_to_utf8like"
+//@ unit name=c15_utf8_roundtrip_len5 props=C15 tier=quick kind=complete timeout=300 funcs="parser::utf8_code; encode_to_utf8like"
+//@ unit name=c15_utf8_roundtrip_len6 props=C15 tier=quick kind=complete timeout=300 funcs="parser::utf8_code; encode_to_utf8like"
+//@ unit name=c15_utf8_roundtrip_len7 props=C15 tier=quick kind=complete timeout=300 funcs="parser::utf8_code; encode_to_utf8like"
+macro_rules! c15_utf8_harness {
+    ($name:ident, $l:expr) => {
+        #[kani::proof]
+        #[kani::unwind(9)]
+        #[kani::stub(std::fmt::format, stub_format)]
+        fn $name() {
+            c15_utf8_body::<$l>();
+        }
+    };
+}
+c15_utf8_harness!(c15_utf8_roundtrip_len1, 1);
+c15_utf8_harness!(c15_utf8_roundtrip_len2, 2);
+c15_utf8_harness!(c15_utf8_roundtrip_len3, 3);
+c15_utf8_harness!(c15_utf8_roundtrip_len4, 4);
+c15_utf8_harness!(c15_utf8_roundtrip_len5, 5);
+c15_utf8_harness!(c15_utf8_roundtrip_len6, 6);
+c15_utf8_harness!(c15_utf8_roundtrip_len7, 7);
+
+/// Serialises the extra bits of a spec into a byte buffer through the abstract sink.
+fn extra_bytes_of(s: &SpecSink) -> ([u8; 2], usize) {
+    ([s.id.byte(0), s.id.byte(1)], s.id.len / 8)
+}
+
+/// For EVERY `BlockSizeSpec` other than `Reserved` (variant concrete per step, payload symbolic):
+/// `block_size_code(spec.tag())` applied to the extra bits the writer emits returns exactly `spec`
+/// and consumes exactly those bytes.  Together with datatype::verif::c02_block_size_code_all
+/// (`from_size` is total on 1..=65535) the parser inverts the writer for every block size.
+//@ unit props=C15 tier=quick kind=complete timeout=300 funcs="parser::block_size_code; BlockSizeSpec::tag; BlockSizeSpec::write_extra_bits"
 #[kani::proof]
-#[kani::unwind(4)]
-#[kani::stub(crate::arrayutils::find_max, contract_find_max)]
-#[kani::stub(crate::arrayutils::wrapping_sum, contract_wrapping_sum)]
-#[kani::stub(unary_code, contract_unary_code)]
-fn xp_residual_a() {
-    xp_residual_body::<2, 1, 2>(0);
+#[kani::unwind(7)]
+fn c15_block_size_code_inverts_writer() {
+    let x8: u8 = kani::any();
+    let x16: u16 = kani::any();
+    let k576: u8 = kani::any();
+    kani::assume(k576 <= 3);
+    let k256: u8 = kani::any();
+    kani::assume(k256 <= 7);
+    let specs = [
+        component::BlockSizeSpec::S192,
+        component::BlockSizeSpec::Pow2Mul576(k576),
+        component::BlockSizeSpec::ExtraByte(x8),
+        component::BlockSizeSpec::ExtraTwoBytes(x16),
+        component::BlockSizeSpec::Pow2Mul256(k256),
+    ];
+    let mut i = 0;
+    while i < specs.len() {
+        let spec = specs[i];
+        let mut s = SpecSink::new();
+        assert!(spec.write_extra_bits(&mut s).is_ok());
+        let (buf, n) = extra_bytes_of(&s);
+        match block_size_code::<ByteErr>(spec.tag())(&buf[0..n]) {
+            Ok((rest, back)) => assert!(back == spec && rest.len() == 0),
+            Err(_) => assert!(false),
+        }
+        i += 1;
+    }
+    // and through `from_size`, for every block size the encoder can emit
+    let bs: u16 = kani::any();
+    kani::assume(bs >= 1);
+    let spec = component::BlockSizeSpec::from_size(bs);
+    let mut s = SpecSink::new();
+    assert!(spec.write_extra_bits(&mut s).is_ok());
+    let (buf, n) = extra_bytes_of(&s);
+    let r = block_size_code::<ByteErr>(spec.tag())(&buf[0..n]);
+    match r {
+        Ok((rest, back)) => assert!(back == spec && rest.len() == 0),
+        Err(_) => assert!(false),
+    }
 }
+
+/// For EVERY `SampleRateSpec`: `sample_rate_code(spec.tag())` applied to the writer's extra bits
+/// returns exactly `spec`, consuming exactly those bytes; and `from_tag_and_data` inverts
+/// `tag()` + payload directly.
+//@ unit props=C15 tier=quick kind=complete timeout=300 funcs="parser::sample_rate_code; SampleRateSpec::from_tag_and_data; SampleRateSpec::tag; SampleRateSpec::write_extra_bits"
+#[kani::proof]
+#[kani::unwind(17)]
+fn c15_sample_rate_code_inverts_writer() {
+    let x8: u8 = kani::any();
+    let x16: u16 = kani::any();
+    let y16: u16 = kani::any();
+    use component::SampleRateSpec as R;
+    let specs = [
+        R::Unspecified,
+        R::R88_2kHz,
+        R::R176_4kHz,
+        R::R192kHz,
+        R::R8kHz,
+        R::R16kHz,
+        R::R22_05kHz,
+        R::R24kHz,
+        R::R32kHz,
+        R::R44_1kHz,
+        R::R48kHz,
+        R::R96kHz,
+        R::KHz(x8),
+        R::Hz(x16),
+        R::DaHz(y16),
+    ];
+    let mut i = 0;
+    while i < specs.len() {
+        let spec = specs[i];
+        assert!(spec.tag() as usize == i);
+        let mut s = SpecSink::new();
+        assert!(spec.write_extra_bits(&mut s).is_ok());
+        let (buf, n) = extra_bytes_of(&s);
+        match sample_rate_code::<ByteErr>(spec.tag())(&buf[0..n]) {
+            Ok((rest, back)) => assert!(back == spec && rest.len() == 0),
+            Err(_) => assert!(false),
+        }
+        let payload = match spec {
+            R::KHz(v) => Some(v as usize),
+            R::Hz(v) | R::DaHz(v) => Some(v as usize),
+            _ => None,
+        };
+        assert!(R::from_tag_and_data(spec.tag(), payload) == Some(spec));
+        i += 1;
+    }
+    assert!(R::from_tag_and_data(15, None) == None);
+    assert!(R::from_tag_and_data(12, None) == None);
+}
+
+/// `unary_code` on one arbitrary byte at every bit offset: the result is the number of zero bits
+/// before the first one bit, the input is advanced just past that one bit; if no one bit is left
+/// the result is Incomplete.  Never a panic (C16), and the exact inverse of the writer's `q` zeros
+/// followed by a one (C15).  This is the callee contract `contract_unary_code` refines.
+//@ unit props=C15,C16 tier=quick kind=bounded timeout=600 funcs="parser::unary_code" bound="1 input byte (quotients 0..=7), every bit offset"
 #[kani::proof]
 #[kani::unwind(11)]
-fn xp_unary1() {
+fn c15_unary_code_one_byte() {
     let data: [u8; 1] = kani::any();
     let off: usize = kani::any();
     kani::assume(off <= 7);
-    let r = unary_code::<BitErr>((&data[..], off));
-    if let Ok((rest, q)) = r {
-        assert!(q < 8);
+    let window = ((data[0] as u32) << off) & 0xFF; // the bits from `off` on, left-aligned in 8 bits
+    match unary_code::<BitErr>((&data[..], off)) {
+        Ok(((rest, roff), q)) => {
+            assert!(window != 0);
+            assert!(q as u32 == (window as u8).leading_zeros());
+            let end = off + q + 1;
+            assert!(rest.len() == 1 - end / 8 && roff == end % 8);
+        }
+        Err(nom::Err::Incomplete(_)) => assert!(window == 0),
+        Err(_) => assert!(false),
     }
+    kani::cover!(window == 0);
+    kani::cover!(window == 1 && off == 0);
 }
+
